@@ -3,7 +3,8 @@
  "name": "try_lseek_copy",
  "props": ["C18"],
  "level": "U/iter",
- "tier": "quick",
+ "tier": "wip",
+ "tier_after_hooks": "quick",
  "harness": "h_try_lseek_copy",
  "replace": ["copy_file_chunk"],
  "loop_contracts": true,
